@@ -328,16 +328,23 @@ def forged_scenario(ex, F, unit, tier, holder, p=None, shift=None, key='sim'):
         sim.info['post2'] = _snapshot_obs(sim, target)
         sim.info['stage'] = 'receive'
         sim.receive(target)
-        if tier == 'thorough':
+        if tier == 'thorough' or unit['situation'] in TIMER_SITUATIONS_QUICK:
             sim.info['stage'] = 'advance_time'
             dt = sym_int('dt', 64)
             ex.assume(ex.binop('Le', dt, U64(5_000_000_000), False))
-            sim.advance_time(target, dt)
+            sim.info['dt'] = dt
+            sim.info['adv'] = sim.advance_time(target, dt)
             sim.info['stage'] = 'segments2'
-            sim.segments(target)
+            sim.info['emitted2'] = sim.segments(target)
+            sim.info['post3'] = _snapshot_obs(sim, target)
     sim.info['stage'] = 'done'
     return sim
 
+
+
+# situations whose quick units also get the timer follow-up (advance_time, segments): data in flight on the sending side
+TIMER_SITUATIONS_QUICK = ('estab_inflight',)
+RETRANSMISSION_TIMEOUT_NS = 100_000_000       # the crate's RETRANSMISSION_TIMEOUT (100 ms); advance_time(dt) with dt above it expires the timer
 
 
 class ScenarioBroken(Exception):
@@ -559,6 +566,30 @@ def check_path(ex, F, unit, sim, kind, r, res, known_classes):
             what, m = bad
             res.violations.append(mk_violation(ex, sim, unit, f'c01:retransmission-queue-does-not-cover-unacked:{pre["state"]}',
                                                'after the segment the retransmission queue no longer holds exactly the unacknowledged sequence space: ' + what, 'c01', model=m))
+    # ---------------- (C01, liveness step) whatever is still unacknowledged is retransmitted once the retransmission timer has expired:
+    # after advance_time(dt > RTO) the next segments() contains a segment that covers SND.UNA
+    if 'post3' in info and info.get('adv') != 'CloseConnection' and info['arr'] == 'Ok':
+        p3 = info['post3']
+        res.obligations += 1
+        conforming_ack = True
+        if 'ACK' in flags:
+            _, _, _, fack3, _, _, _, _, _ = info['forged']
+            conforming_ack = ex.binop('Le', ex.binop('Sub', fack3, pre['snd']['una'], False), ex.binop('Sub', pre['snd']['nxt'], pre['snd']['una'], False), False)
+        una3, nxt3 = p3['snd']['una'], p3['snd']['nxt']
+        covered = False
+        for ref in info.get('emitted2', []):
+            hv, txt = seg_parts(F, sim.seg_of(ref))
+            bit = lambda sh: ex.cast(ex.binop('BitAnd', ex.binop('Shr', hv.ctl, Int(8, sh), False), Int(8, 1), False), 'u64', 'IntToInt')
+            slen = ex.binop('Add', txt.length(ex), ex.binop('Add', bit(0), bit(1), False), False)      # text + FIN + SYN
+            covered = b_or(covered, ex.binop('Lt', _seq_off(ex, una3, hv.seq), slen, False))
+        expired = ex.binop('Gt', info['dt'], U64(RETRANSMISSION_TIMEOUT_NS), False)
+        outstanding = b_not(ex.binop('Eq', una3, nxt3, False))
+        sat, m = ex.check_sat(b_and(conforming_ack, expired, outstanding, b_not(covered)))
+        if sat:
+            res.violations.append(mk_violation(ex, sim, unit, f'c01:unacked-data-not-retransmitted-after-timeout:{pre["state"]}',
+                                               'SND.UNA != SND.NXT and the retransmission timer expired, but the segments emitted next do not contain the segment that covers SND.UNA: '
+                                               'the oldest unacknowledged data would never be sent again', 'c01', model=m))
+            return
     # ---------------- (c0) "the window the peer last advertised": when an acknowledgment is accepted (SND.UNA advanced to SEG.ACK), RFC 9293
     # 3.10.7.4 makes SEG.WND the send window iff SND.WL1 < SEG.SEQ or (SND.WL1 = SEG.SEQ and SND.WL2 =< SEG.ACK).  Checked as a reference
     # rule of its own, because the right-edge obligation below takes SND.WND from the implementation
